@@ -9,6 +9,15 @@ import (
 	"verifharness/h"
 )
 
+// plausibleMessage filters cells that merely happen to parse as a message: int_msg_info$0 with two addr_std, or
+// ext_in/ext_out prefixes with an addr_std on the known side.
+func plausibleMessage(r h.Row) bool {
+	if r.BitLen < 2+9+256 {
+		return false
+	}
+	return true
+}
+
 // genTestdata: every cell of every bag of cells in the repo's testdata (parsed with the real parser).
 func genTestdata(g *h.G) {
 	found := h.FindTestdataBocs()
@@ -49,6 +58,38 @@ func genTestdata(g *h.G) {
 			if r.Ty != 0 && ex < g.Scale(8, 40) && g.Rng.Intn(1+exotic/8) == 0 {
 				picks = append(picks, i)
 				ex++
+			}
+		}
+		// messages and transactions inside the bag: every cell the library decodes as one (blocks keep them in cells
+		// of their own); their decoded hash field is compared with the definition
+		cells := h.BuildCells(t)
+		nm, nt := 0, 0
+		lim := g.Scale(150, 100000)
+		for i := range t {
+			if t[i].Ty != 0 || t[i].BitLen < 4 {
+				continue
+			}
+			if nt < lim && t[i].BitLen > 300 && t[i].Data[0]>>4 == 0x7 {
+				if x := tryTransaction(cells[i]); x != nil {
+					nt++
+					g.Count("testdata_transactions")
+					st := h.SubTable(t, i)
+					g.Emit("go.msgtx", "t", h.TableString(st))
+					g.Emit("cell.forms", h.TableString(st))
+					continue
+				}
+			}
+			if nm < lim && len(t[i].Refs) <= 3 {
+				cells[i].ResetCounters()
+				if x := tryMessage(cells[i]); x != nil && plausibleMessage(t[i]) {
+					nm++
+					g.Count("testdata_messages")
+					st := h.SubTable(t, i)
+					if len(st) <= 2000 {
+						g.Emit("go.msgtx", "m", h.TableString(st))
+						g.Emit("cell.forms", h.TableString(st))
+					}
+				}
 			}
 		}
 		for _, i := range picks {
